@@ -2,4 +2,156 @@ import Bifrost.Model.Sign
 import Bifrost.Model.Crypto
 /-! Helper lemmas for C01 and C02 (sign body injectivity, verification characterisation). -/
 namespace Bifrost
+namespace Sign
+open Codec
+
+theorem hashTypeSupported_cases {t : Int} (h : hashTypeSupported t = true) : t = 1 ∨ t = 2 ∨ t = 3 := by
+  simpa [hashTypeSupported] using h
+
+theorem hashTypeSupported_valid {t : Int} (h : hashTypeSupported t = true) : hashTypeValid t = true := by
+  rcases hashTypeSupported_cases h with h | h | h <;> subst h <;> decide
+
+theorem hashTypeSupported_ne_zero {t : Int} (h : hashTypeSupported t = true) : t ≠ 0 := by
+  rcases hashTypeSupported_cases h with h | h | h <;> subst h <;> decide
+
+theorem hashTypeSupported_of_valid_ne_zero {t : Int} (hv : hashTypeValid t = true) (h0 : t ≠ 0) :
+    hashTypeSupported t = true := by
+  simp [hashTypeValid] at hv
+  simp [hashTypeSupported]
+  omega
+
+theorem sep_length : sep.length = 10 := rfl
+
+/-- Bodies whose digests have the same length: split from the end. -/
+theorem body_same_len (c c' h h' : Bytes) (a b : UInt8) (hl : h.length = h'.length)
+    (e : c ++ sep ++ [a] ++ sep ++ h = c' ++ sep ++ [b] ++ sep ++ h') :
+    c = c' ∧ a = b ∧ h = h' := by
+  obtain ⟨e1, e2⟩ := List.append_inj' e hl
+  obtain ⟨e3, _⟩ := List.append_inj' e1 rfl
+  obtain ⟨e4, e5⟩ := List.append_inj' e3 (by simp)
+  obtain ⟨e6, _⟩ := List.append_inj' e4 rfl
+  exact ⟨e6, by simpa using e5, e2⟩
+
+/-- Bodies whose digests have lengths 20 and 32 never coincide: aligned from the end, the
+second separator of the left body would have to equal itself shifted by one byte. -/
+theorem body_mixed_ne (c c' h h' : Bytes) (a : UInt8) (hl : h.length = 20) (hl' : h'.length = 32) :
+    c ++ sep ++ [50] ++ sep ++ h ≠ c' ++ sep ++ [a] ++ sep ++ h' := by
+  intro e
+  have hlen : c.length = c'.length + 12 := by
+    have := congrArg List.length e
+    simp [sep_length] at this
+    omega
+  have e2 := congrArg (List.drop c.length) e
+  simp only [List.append_assoc] at e2
+  rw [List.drop_left, hlen, List.drop_append] at e2
+  have hnil : List.drop (c'.length + 12) c' = [] := List.drop_eq_nil_of_le (by omega)
+  simp [sep, hnil] at e2
+
+theorem itoa_one : itoa 1 = [49] := rfl
+theorem itoa_two : itoa 2 = [50] := rfl
+theorem itoa_three : itoa 3 = [51] := rfl
+theorem hashLen_one : hashLen 1 = 32 := rfl
+theorem hashLen_two : hashLen 2 = 20 := rfl
+theorem hashLen_three : hashLen 3 = 32 := rfl
+
+theorem signBody_inj (c c' : Bytes) (t t' : Int) (h h' : Bytes)
+    (ht : hashTypeSupported t = true) (ht' : hashTypeSupported t' = true)
+    (hl : h.length = hashLen t) (hl' : h'.length = hashLen t')
+    (e : signBody c t h = signBody c' t' h') : c = c' ∧ t = t' ∧ h = h' := by
+  rcases hashTypeSupported_cases ht with rfl | rfl | rfl <;>
+  rcases hashTypeSupported_cases ht' with rfl | rfl | rfl <;>
+  simp only [signBody, itoa_one, itoa_two, itoa_three, hashLen_one, hashLen_two,
+    hashLen_three] at e hl hl'
+  · obtain ⟨h1, _, h3⟩ := body_same_len _ _ _ _ _ _ (hl.trans hl'.symm) e
+    exact ⟨h1, rfl, h3⟩
+  · exact absurd e.symm (body_mixed_ne _ _ _ _ _ hl' hl)
+  · obtain ⟨_, h2, _⟩ := body_same_len _ _ _ _ _ _ (hl.trans hl'.symm) e
+    exact absurd h2 (by decide)
+  · exact absurd e (body_mixed_ne _ _ _ _ _ hl hl')
+  · obtain ⟨h1, _, h3⟩ := body_same_len _ _ _ _ _ _ (hl.trans hl'.symm) e
+    exact ⟨h1, rfl, h3⟩
+  · exact absurd e (body_mixed_ne _ _ _ _ _ hl hl')
+  · obtain ⟨_, h2, _⟩ := body_same_len _ _ _ _ _ _ (hl.trans hl'.symm) e
+    exact absurd h2 (by decide)
+  · exact absurd e.symm (body_mixed_ne _ _ _ _ _ hl' hl)
+  · obtain ⟨h1, _, h3⟩ := body_same_len _ _ _ _ _ _ (hl.trans hl'.symm) e
+    exact ⟨h1, rfl, h3⟩
+
+theorem verifyWithPublic_congr (verify : VerifyFn) (sum : SumFn) (s s' : Signature)
+    (ctx pk data : Bytes) (h1 : s.hashType = s'.hashType) (h2 : s.sigData = s'.sigData) :
+    verifyWithPublic verify sum s ctx pk data = verifyWithPublic verify sum s' ctx pk data := by
+  unfold verifyWithPublic
+  rw [h1, h2]
+
+theorem newSignature_some (sign : Bytes → Bytes) (sum : SumFn) (ctx : Bytes) (t : Int)
+    (data : Bytes) (s : Signature) (hs : newSignature sign sum ctx t data = some s) :
+    hashTypeValid t = true ∧ ∃ h, sum t data = some h ∧
+      s = { hashType := t, sigData := sign (signBody ctx t h) } := by
+  unfold newSignature at hs
+  split at hs
+  · cases hs
+  · rename_i hv
+    split at hs
+    · cases hs
+    · rename_i h hsum
+      refine ⟨by simpa using hv, h, hsum, ?_⟩
+      cases hs
+      rfl
+
+theorem extractPublicKey_nil : extractPublicKey [] = none := rfl
+
+theorem idB58Decode_nil : idB58Decode [] = none := rfl
+
+theorem isEmpty_eq_false_of_ne_nil {l : Bytes} (h : l ≠ []) : l.isEmpty = false := by
+  cases l with
+  | nil => exact absurd rfl h
+  | cons a t => rfl
+
+theorem ne_nil_of_isEmpty_eq_false {l : Bytes} (h : l.isEmpty = false) : l ≠ [] := by
+  intro e
+  rw [e] at h
+  cases h
+
+/-- Exact characterisation of acceptance by `extractAndVerify`. -/
+theorem extractAndVerify_ok_iff' (verify : VerifyFn) (sum : SumFn) (m : SignedMsg) (ctx pk id : Bytes) :
+    extractAndVerify verify sum m ctx = .ok (pk, id) ↔
+      m.data ≠ [] ∧ m.fromPeerId ≠ [] ∧ m.signature.validate = true ∧
+      idB58Decode m.fromPeerId = some id ∧ extractPublicKey id = some pk ∧
+      verifyWithPublic verify sum m.signature ctx pk m.data = .good := by
+  unfold extractAndVerify
+  constructor
+  · intro h
+    split at h
+    · cases h
+    rename_i hd
+    split at h
+    · cases h
+    rename_i hp
+    split at h
+    · cases h
+    rename_i hval
+    split at h
+    · cases h
+    rename_i id0 hid
+    split at h
+    · cases h
+    split at h
+    · cases h
+    rename_i pk0 hpk
+    split at h
+    · rename_i hgood
+      cases h
+      refine ⟨ne_nil_of_isEmpty_eq_false (by simpa using hd),
+        ne_nil_of_isEmpty_eq_false (by simpa using hp), by simpa using hval, hid, hpk, hgood⟩
+    · cases h
+  · rintro ⟨hd, hp, hval, hid, hpk, hgood⟩
+    have hidne : id.isEmpty = false := by
+      apply isEmpty_eq_false_of_ne_nil
+      intro e
+      rw [e, extractPublicKey_nil] at hpk
+      cases hpk
+    rw [isEmpty_eq_false_of_ne_nil hd, isEmpty_eq_false_of_ne_nil hp, hval]
+    simp only [Bool.false_eq_true, if_false, Bool.not_true, hid, hidne, hpk, hgood]
+
+end Sign
 end Bifrost
